@@ -141,6 +141,22 @@ def run_spec(tr, dev0, slot_of_vol, checks=("read", "state")):
         kind = op[0]
         okk = r[0] == "ok"
         bind = tr.binds[k]
+        if not okk and tr.faulted(k) and kind in ("close", "dropfile", "open", "delete", "mkdir"):
+            # a device call failed inside a call that discards in-memory state or rewrites directory entries: what the
+            # medium holds for the file concerned is whatever the half-done call left (a failed close consumes the handle
+            # and loses the unflushed entry - the crate's documented behaviour): no further claims about that file
+            gone = None
+            if kind in ("close", "dropfile") and op[1] in sp.open:
+                gone = sp.open.pop(op[1])["path"]
+            elif kind in ("open", "delete") and op[1] in sp.dslot:
+                s11_ = sfn_parse(unhexname(op[2]))
+                if s11_:
+                    gone = sp.dslot[op[1]] + "/" + s11_.decode("latin-1").rstrip()
+            if gone is not None:
+                sp.unknown.add(gone); sp.files.pop(gone, None); sp.flushed.pop(gone, None); sp.touched.add(gone); sp.wstamp.pop(gone, None)
+                for sl_ in [x for x, f_ in sp.open.items() if f_["path"] == gone]:
+                    sp.open.pop(sl_, None)
+            continue
         if okk and r[1] == "handle" and bind:
             tr.slots[bind] = int(r[2])
         if kind == "openvol" and okk and bind:
@@ -294,6 +310,10 @@ def run_spec(tr, dev0, slot_of_vol, checks=("read", "state")):
             f = sp.open[op[1]]
             if not tr.faulted(k):
                 sp.flushed[f["path"]] = (bytes(sp.files[f["path"]]), k)
+            else:
+                # the discarded close failed on a device fault: the unflushed entry is lost (C11x_drop_swallows_fault)
+                g_ = f["path"]
+                sp.unknown.add(g_); sp.files.pop(g_, None); sp.flushed.pop(g_, None); sp.touched.add(g_); sp.wstamp.pop(g_, None)
             del sp.open[op[1]]
         elif kind in ("wlen", "woff", "weof") and op[1] in sp.open and f_known(sp, op[1]):
             # File::length / offset / is_eof on an open handle: the byte-array model's value, never a panic
